@@ -1,20 +1,20 @@
 package main
 
 import (
-	"go/constant"
 	"fmt"
 	"go/ast"
+	"go/constant"
 	"go/token"
 	"go/types"
 	"strings"
 )
 
 type ModTarget struct {
-	comp  string
-	sort  string
-	lvl   int
-	idx   string // index term at the outer level (ref / array id / map ref); "" for level 0
-	text  string
+	comp string
+	sort string
+	lvl  int
+	idx  string // index term at the outer level (ref / array id / map ref); "" for level 0
+	text string
 }
 
 // resolveMods turns the modifies entries of a contract into heap targets, evaluated in scope sc.
@@ -375,19 +375,19 @@ func (vc *VC) intrinsic(st *State, call *ast.CallExpr, full string, sig *types.S
 // ---------------------------------------------------------------- verifying one function against its contract
 
 type FuncResult struct {
-	Func        string
-	Key         string
-	Pkg         string
-	Obls        []*Obligation
-	OutOfSubset string
+	Func         string
+	Key          string
+	Pkg          string
+	Obls         []*Obligation
+	OutOfSubset  string
 	Uncontracted []string
-	DepsUsed    []string
-	Dropped     []string
-	Assumptions []string
-	Callees     []string
-	Contract    *Contract
-	Paths       int
-	Locals      []LocalDecl
+	DepsUsed     []string
+	Dropped      []string
+	Assumptions  []string
+	Callees      []string
+	Contract     *Contract
+	Paths        int
+	Locals       []LocalDecl
 }
 
 func (w *World) verifyFunc(pi *PkgInfo, fd *ast.FuncDecl, c *Contract, mode string) (res *FuncResult) {
